@@ -33,9 +33,23 @@ type T struct {
 	BS   []bool    `param:"bs" query:"bs" form:"bs" header:"X-Bs" cookie:"bs" json:"bs" xml:"bs" cbor:"bs"`
 	FS   []float64 `param:"fs" query:"fs" form:"fs" header:"X-Fs" cookie:"fs" json:"fs" xml:"fs" cbor:"fs"`
 	TS   []string  `param:"qt" query:"qt" form:"ts" header:"X-Ts" cookie:"ts" json:"ts" xml:"ts" cbor:"ts"`
+	// the remaining integer widths, scalar and as slice elements, and float32 elements
+	I16  int16     `param:"i16" query:"i16" form:"i16" header:"X-I16" cookie:"i16" json:"i16" xml:"i16" cbor:"i16"`
+	I32  int32     `param:"i32" query:"i32" form:"i32" header:"X-I32" cookie:"i32" json:"i32" xml:"i32" cbor:"i32"`
+	U8   uint8     `param:"u8" query:"u8" form:"u8" header:"X-U8" cookie:"u8" json:"u8" xml:"u8" cbor:"u8"`
+	U32  uint32    `param:"u32" query:"u32" form:"u32" header:"X-U32" cookie:"u32" json:"u32" xml:"u32" cbor:"u32"`
+	I8S  []int8    `param:"i8s" query:"i8s" form:"i8s" header:"X-I8s" cookie:"i8s" json:"i8s" xml:"i8s" cbor:"i8s"`
+	U16S []uint16  `param:"u16s" query:"u16s" form:"u16s" header:"X-U16s" cookie:"u16s" json:"u16s" xml:"u16s" cbor:"u16s"`
+	F32S []float32 `param:"f32s" query:"f32s" form:"f32s" header:"X-F32s" cookie:"f32s" json:"f32s" xml:"f32s" cbor:"f32s"`
+	// NT has no `param`/`query` tag: the query source and equalFieldType fall back to the Go name "NT"
+	// (compared case-insensitively with the key, so the form key "nt" is a slice key under splitting).
+	// Its header tag is not in canonical spelling: fasthttp sends and delivers it as "X-Nt".
+	NT []string `form:"nt" header:"x-nt" cookie:"nt" json:"nt" xml:"nt" cbor:"nt"`
+	// N has no tags at all: every source uses the Go name.
+	N string
 }
 
-const nFields = 17
+const nFields = 26
 
 // serverTag is the struct tag the server-side binder of each source reads.
 func serverTag(source string) string {
